@@ -132,6 +132,9 @@ pub fn scenario(g: &mut G, ctx: &RunCtx) -> RunReport {
     if g.chance(1, 6) {
         return coded_scenario(g, ctx);
     }
+    if g.chance(1, 10) {
+        return desync_scenario(g, ctx);
+    }
     let ran = bodyx::run(&d.plan, ctx, false);
     let mut stats = Stats::default();
     stats.absorb(&ran.history);
@@ -287,6 +290,115 @@ fn coded_oracle(d: &Damaged, o: &Observed, payload: &[u8], z: &[u8], coding: &st
                 Ok(_) => Verdict::Pass,
             }
         }
+    }
+}
+
+/// A chunked body whose *data* is laid out so that a reader which loses its place in one particular way
+/// lands on something that parses: the read timeout strikes inside a chunk-size line of several digits,
+/// the rest arrives later and the caller reads again.  A reader that then takes only the remaining
+/// digits for the size finds, right after that many octets, a line break and another well-formed size
+/// line inside the data (or, when the remaining digits are zero, the end of the body).  Whatever the
+/// library does after the error, it must not hand out anything but a prefix of the real payload and
+/// must not report a clean end.
+fn desync_scenario(g: &mut G, ctx: &RunCtx) -> RunReport {
+    g.probe("payload-laid-out-for-a-desynchronised-chunk-reader");
+    let nchunks = g.range(1, 3) as usize;
+    let victim = g.usize_below(nchunks);
+    let mut payload: Vec<u8> = Vec::new();
+    let mut chunks: Vec<httpref::ChunkSpec> = Vec::new();
+    let mut split_in_line = 0usize; // digits delivered before the silence
+    for ci in 0..nchunks {
+        // a size of two or three hex digits
+        let s: usize = if g.chance(1, 2) { g.range(0x10, 0xff) as usize } else { g.range(0x100, 0xfff) as usize };
+        let digits = format!("{:x}", s).len();
+        let keep = g.range(1, digits as u64 - 1) as usize; // digits that arrive after the silence
+        let t = s % (16usize.pow(keep as u32));
+        let mut data: Vec<u8> = Vec::new();
+        let filler = |n: usize, tag: u8| -> Vec<u8> { (0..n).map(|i| b'A' + ((i as u8).wrapping_add(tag)) % 26).collect() };
+        if ci == victim {
+            split_in_line = digits - keep;
+            if t == 0 {
+                // "...0" reads as the last chunk: the data starts with the line break that would end the body
+                data.extend_from_slice(b"\r\n");
+                data.extend(filler(s - 2, 1));
+            } else if t + 5 <= s {
+                // X[t] CRLF hex(u) CRLF Y[u], all inside the s octets of the real chunk
+                let mut done = false;
+                for hl in 1..=3usize {
+                    if s < t + 4 + hl {
+                        continue;
+                    }
+                    let u = s - t - 4 - hl;
+                    if format!("{:x}", u).len() == hl {
+                        data.extend(filler(t, 2));
+                        data.extend_from_slice(b"\r\n");
+                        data.extend_from_slice(format!("{:x}", u).as_bytes());
+                        data.extend_from_slice(b"\r\n");
+                        data.extend(filler(u, 3));
+                        done = true;
+                        break;
+                    }
+                }
+                if !done {
+                    data = filler(s, 4);
+                }
+            } else {
+                data = filler(s, 5);
+            }
+        } else {
+            data = filler(s, 6 + ci as u8);
+        }
+        assert_eq!(data.len(), s);
+        payload.extend_from_slice(&data);
+        chunks.push(httpref::ChunkSpec { len: s, size_line: format!("{:x}", s).into_bytes(), eol_size: b"\r\n", eol_data: b"\r\n" });
+    }
+    let headers = vec![("Transfer-Encoding".to_string(), b"chunked".to_vec())];
+    let mut wire = httpref::Wire::default();
+    wire.bytes = httpref::encode_head(200, "OK", &headers);
+    wire.head_len = wire.bytes.len();
+    httpref::encode_body(&mut wire, Framing::Chunked, &payload, &chunks, b"0", &[]);
+    let k = wire.chunk_map[victim].0 + split_in_line;
+    let mut plan = bodyx::plan_from_payload(g, payload.clone(), vec![]);
+    // plan_from_payload drew its own framing: put ours in its place
+    plan.framing = Framing::Chunked;
+    plan.chunk_lens = chunks.iter().map(|c| c.len).collect();
+    plan.chunk_style = chunks.iter().map(|c| format!("{}:0", c.len)).collect();
+    plan.extra_headers = headers;
+    plan.declared_len = payload.len();
+    let (s1, name) = gen::segmentation(g, k, &wire.targets.clone());
+    let (s2, _) = gen::segmentation(g, wire.bytes.len() - k, &[]);
+    let mut segs = s1.clone();
+    segs.extend_from_slice(&s2);
+    let mut sc = Script::from_wire(&wire.bytes, &segs, End::Fin);
+    plan.read_timeout_ms = *g.pick(&[50u64, 1000]);
+    sc.wait_before(s1.len(), (plan.read_timeout_ms + 1 + g.below(50)) * NS_PER_MS);
+    plan.script = sc;
+    plan.seg_name = name;
+    plan.nsegs = segs.len();
+    plan.cut_at = Some(k);
+    plan.damage = format!("Gap:at={}:inside-a-size-line", k);
+    plan.faults.timeout_is_timed_out = g.chance(1, 3);
+    let (v, n) = gen::read_sizes(g);
+    plan.read_mode = ReadMode::Sizes(v, n);
+    plan.rereads = g.range(2, 6) as usize;
+    let delivered = wire.bytes.clone();
+    plan.wire = wire;
+    let d = Damaged { plan, damage: Damage::Gap, delivered };
+    let ran = bodyx::run(&d.plan, ctx, false);
+    let mut stats = Stats::default();
+    stats.absorb(&ran.history);
+    let verdict = match &ran.observed {
+        None => violation("hang", format!("run torn down: deadlock={} event_cap={}", ran.history.deadlock, ran.history.event_cap)),
+        Some(Err(p)) => violation(format!("panic:{}", panic_site(p)), p.clone()),
+        Some(Ok(o)) => oracle(&d, o),
+    };
+    RunReport {
+        verdict,
+        shape: format!("desync/{}", d.plan.shape()),
+        nontrivial: true,
+        stats,
+        sched_tape: ran.sched_tape,
+        describe: if ctx.describe { format!("data laid out for a desynchronised reader; {}", d.plan.describe()) } else { String::new() },
     }
 }
 
